@@ -26,6 +26,42 @@ func VerifC14NeedsQuote() {
 	rt.Assert(nq == !exact, "needsquote-exact")
 }
 
+// VerifC14NeedsQuoteLines: bodies of several lines built from line templates
+// (beyond the byte bound of VerifC14NeedsQuote): an ordinary line, a line
+// that starts like a marker but is none ("-- " + bytes), a marker line, in
+// solver-chosen order, the last one with or without newline.
+func VerifC14NeedsQuoteLines() {
+	nl := rt.IntRange(1, rt.Param("LINES", 3))
+	var data []byte
+	for i := 0; i < nl; i++ {
+		switch rt.IntRange(0, 2) {
+		case 0:
+			data = append(data, rt.Bytes(rt.IntRange(0, 1))...)
+		case 1:
+			data = append(data, "-- "...)
+			data = append(data, rt.Bytes(rt.IntRange(0, 2))...)
+			rt.Reach("marker-like-line")
+		case 2:
+			data = append(data, "-- "...)
+			data = append(data, rt.Bytes(1)...)
+			data = append(data, " --"...)
+		}
+		if i < nl-1 || rt.Bool() {
+			data = append(data, '\n')
+		}
+	}
+	a := &Archive{Files: []File{{Name: "f", Data: data}}}
+	b := Parse(Format(a))
+	exact := false
+	if len(b.Files) == 1 && len(b.Comment) == 0 {
+		exact = rt.And(rt.StrEq(b.Files[0].Name, "f"), rt.BytesEq(b.Files[0].Data, refFixNL(data)))
+	} else {
+		rt.Reach("body-changes-parse")
+	}
+	nq := NeedsQuote(data)
+	rt.Assert(nq == !exact, "needsquote-exact")
+}
+
 // VerifC14Quote: Quote/Unquote are inverse, quoted data never needs
 // quoting and survives Format/Parse; Quote refuses only unrepresentable data.
 func VerifC14Quote() {
